@@ -186,9 +186,25 @@ func c17Construct(c *ctx) {
 		}
 		// the curve comes from the registry
 		for _, s := range curveStores {
-			d := descr(s.Val)
-			if !(strings.Contains(d, "GetCurveByName") || d == "EC()") {
-				ok, why = false, "the decoded point's curve is "+d+", not a registry curve"
+			registry := func(v ssa.Value) bool {
+				d := descr(v)
+				return strings.Contains(d, "GetCurveByName") || d == "EC()"
+			}
+			good := registry(s.Val)
+			// the lookup factored into a private helper: every success return hands back a registry curve
+			if ex, isEx := core.Strip(s.Val).(*ssa.Extract); !good && isEx {
+				if call, isC := ex.Tuple.(*ssa.Call); isC && !call.Call.IsInvoke() && core.PrivateHelper(core.Callee(call)) {
+					rets := core.SuccessReturns(core.Callee(call))
+					good = len(rets) > 0
+					for _, ret := range rets {
+						if ex.Index >= len(ret.Results) || !registry(ret.Results[ex.Index]) {
+							good = false
+						}
+					}
+				}
+			}
+			if !good {
+				ok, why = false, "the decoded point's curve is "+descr(s.Val)+", not a registry curve"
 			}
 		}
 		c.r.Check(ok && len(blocks) > 0, rule, fkey(rule, fn, "decoded-point-checked"), c.fpos(fn), "success is dominated by IsOnCurve() on the decoded coordinates with a registry curve", why)
